@@ -489,6 +489,10 @@ func TestC10_R_F21_IdentityHasher(t *testing.T) {
 		{"short-name", strings.Repeat("L", 200)},
 		{"aaaaaaaaaaaa", "bbbbbbbbbbbb"},
 		{"alpha-000001", "bravo-000002", "charlie-0003", "delta-000004", "echo-0000005", "alpha-100001"},
+		// digests of different lengths (the identity digest IS the name), short ones before and after long ones that share
+		// a prefix longer than the short ones
+		{"a.txt", "notes-1.md", "notes-2.md", "b", "notes-10.md"},
+		{"zz", "chapter-one-draft.txt", "chapter-one-final.txt", "y"},
 	}
 	for _, names := range sets {
 		first := outcome(names)
@@ -497,7 +501,10 @@ func TestC10_R_F21_IdentityHasher(t *testing.T) {
 			rev[len(names)-1-i] = names[i]
 		}
 		rot := append(append([]string{}, names[1:]...), names[0])
-		for _, other := range [][]string{rev, rot, names} {
+		rot2 := append(append([]string{}, names[2:]...), names[:2]...)
+		sorted := append([]string{}, names...)
+		sort.Strings(sorted)
+		for _, other := range [][]string{rev, rot, rot2, sorted, names} {
 			if got := outcome(other); got != first {
 				t.Fatalf("C10: sharded build with the identity name hash: entries %q gave %s, the same entries as %q gave %s", names, first, other, got)
 			}
